@@ -107,10 +107,13 @@ package nfsv4
 // Discarding it earlier leaves locks in the file's lock table that no state
 // ID can release any more.
 //@ func (*nfs41LockOwnerFileState).remove
-//@   props C20
+//@   props C20 C18
 //@   requires no-locks-held: lofs.lockCount == 0
+//@   trustcall downgradeShareAccess -- representation invariant: the share counts of an open-owner file state that is registered in the client's tables are consistent with its share mask
+//@   ensures owed-close-is-queued: len(ll.leaves) - old(len(ll.leaves)) == unsettled(nil) - old(unsettled(nil))
 //@ func (*sequenceState).opFreeStateID
-//@   props C20
+//@   props C20 C18
+//@   ensures every-owed-close-happens: vclosed(nil) - old(vclosed(nil)) == unsettled(nil) - old(unsettled(nil))
 //@   at call remove#1 assume lofs.lockCount >= 0 -- representation invariant: lock counts are never negative (LOCKU panics with "Negative lock count" before storing one)
 
 // The count that gates FREE_STATEID, CLOSE and RELEASE_LOCKOWNER follows the
